@@ -343,6 +343,15 @@ static void op_eval(void) {
     for (int i = 0; i < m->ntendon; i++) lim[i] = m->tendon_limited[i];
     piarr("tendon_limited", lim, m->ntendon);
     free(lim); }
+  // names (ids are assigned by the compiler in tree order, not in description order)
+  { struct { const char* k; int t; int n; } N[] = {{"body", mjOBJ_BODY, m->nbody}, {"joint", mjOBJ_JOINT, m->njnt}, {"geom", mjOBJ_GEOM, m->ngeom},
+      {"site", mjOBJ_SITE, m->nsite}, {"camera", mjOBJ_CAMERA, m->ncam}, {"tendon", mjOBJ_TENDON, m->ntendon},
+      {"actuator", mjOBJ_ACTUATOR, m->nu}, {NULL, 0, 0}};
+    for (int k = 0; N[k].k; k++) {
+      printf("names %s %d", N[k].k, N[k].n);
+      for (int i = 0; i < N[k].n; i++) { const char* nm = mj_id2name(m, N[k].t, i); printf(" %s", nm && *nm ? nm : "~"); }
+      printf("\n");
+    } }
   // contacts with their forces (mj_contactForce: documented reference)
   for (int j = 0; j < d->ncon; j++) {
     const mjContact* c = d->contact + j;
